@@ -574,6 +574,32 @@ def colours(draw, count, odds=(1, 3)):
     return out
 
 
+SPECIES_SPELLINGS = {
+    # names that differ only in letter case (distinct species; only with an explicit leaf assignment, since the
+    # name-derived one is documented as case-insensitive)
+    "case-twins": ["a", "A", "b", "B", "ab", "Ab", "aB", "AB", "c", "C"],
+    # names that are string prefixes of one another, with and without an underscore boundary
+    "prefix-nested": ["s1", "s10", "s1_x", "s11", "s", "s1_x_y", "s100", "s2", "s20", "s2_1"],
+}
+
+
+def respell_species(case, variant):
+    """The same case with its species leaves (SA, SB, ...) renamed after SPECIES_SPELLINGS[variant] and the object
+    leaves renamed to match ('<species>_<id>' keeps its id; a misleading prefix stays misleading)."""
+    names = SPECIES_SPELLINGS[variant]
+    smap = {s: names[i] for i, s in enumerate(SPECIES_NAMES)}
+    omap = {}
+    for leaf in case["leaf_object_species"]:
+        prefix, _, rest = leaf.partition("_")
+        omap[leaf] = smap.get(prefix, prefix) + "_" + rest
+    if len(set(omap.values())) != len(omap):
+        return case
+    keep = {k: v for k, v in case.items() if k.startswith("_") and k not in ("_mapping", "_mapping2", "_lab_o", "_lab_u")}
+    out = rename_case(case, omap, smap)
+    out.update(keep)
+    return out
+
+
 def rename_case(case, omap, smap, fmap=None, ocol=None, scol=None):
     """Apply name maps (and optional colour lists indexed by pre-order) to a
     case dictionary and its private _mapping/_lab entries."""
